@@ -18,8 +18,9 @@ PROPS["C14"] = dict(
                "reversing twice is the identity and no read leaves the storage. The model is tied to path.rs by "
                "bounded-exhaustive + random differential runs (debug and release builds).",
     level_note="Trusted: Coq kernel; the hand-written model's fidelity is checked, not proved (differential runs on "
-               "integer-valued coordinates); PathBuffer / Commands / Polygon views are covered by differential runs "
-               "and models as listed in the evidence; unsafe pointer arithmetic is modelled as checked list access.",
+               "integer-valued coordinates); Polygon views are modelled and proved (Model/Polygon.v), PathBuffer entries and "
+               "PathCommands with external storage are compared with the program's events directly (not modelled); "
+               "unsafe pointer arithmetic is modelled as checked list access.",
     technique="Coq proof (induction over builder programs) + model/implementation correspondence via vm_compute",
     coq_targets=["theories/Props/C14.vo", "theories/Run/C14.vo"],
     props_file="theories/Props/C14.v",
@@ -28,8 +29,14 @@ PROPS["C14"] = dict(
     rule="builder programs: every well-nested sequence of begin/line/quadratic/cubic/end/close calls up to "
          "6 (quick) / 8 (thorough) calls x attribute counts 0..3 with pairwise distinct operands (exhaustive), "
          "plus seeded random programs up to 200 calls with 0..5 attributes and repeated coordinates; "
+         "every program is also appended to a PathBuffer between two other paths (attributes read back through the "
+         "entry's slice), rebuilt as PathCommands over external endpoint / control-point storage (events, id events, "
+         "random access by event id) and, when polygonal with one sub-path, read through Polygon::{path_events, iter, "
+         "id_iter, event}; polygons: every point list of up to 4 points on a 2x2 lattice and random ones of 5..24 "
+         "points, open and closed, compared with Model/Polygon.v; "
          "a case is non-trivial when it has at least 3 builder calls; distinct = distinct program text",
-    exhaustive_note="all well-nested call-kind sequences up to the stated length x attribute counts 0..3",
+    exhaustive_note="all well-nested call-kind sequences up to the stated length x attribute counts 0..3; all polygons of "
+                    "up to 4 points on a 2x2 lattice",
     trusted_base=[
         "Model/PathStore.v models path.rs storage/iterators with integer coordinates; f32 specifics (NaN checks, "
         "debug validator) are outside the model",
